@@ -460,10 +460,44 @@ def setup():
     return 0 if ok and ok2 else 1
 
 
+LOCKS = os.path.join(VERIF, 'work', 'locks')
+
+
+def _alive(pid):
+    try:
+        os.kill(pid, 0)
+        return True
+    except OSError:
+        return False
+
+
+def courtesy_lock():
+    """Development aid only (nothing is locked in normal use): while tools/mutant_test.py has a seeded change applied
+    to /repo it holds work/locks/mutation; a check started by someone else waits (at most 40 min, and only while the
+    holder is alive) instead of judging the mutated tree. Every running check announces itself in work/locks/check.<pid>
+    so that mutant_test.py can wait for it before touching /repo."""
+    os.makedirs(LOCKS, exist_ok=True)
+    mine = os.path.join(LOCKS, 'check.%d' % os.getpid())
+    mut = os.path.join(LOCKS, 'mutation')
+    t0 = time.time()
+    while os.environ.get('VERIF_MUTANT') != '1' and time.time() - t0 < 2400:
+        try:
+            holder = int(open(mut).read().strip() or '0')
+        except Exception:
+            break
+        if not _alive(holder):
+            break
+        time.sleep(2)
+    open(mine, 'w').write(str(os.getpid()))
+    import atexit
+    atexit.register(lambda: os.path.exists(mine) and os.remove(mine))
+
+
 def main():
     a = sys.argv[1:]
     if a and a[0] == 'setup':
         sys.exit(setup())
+    courtesy_lock()
     pid = a[0]
     seed = int(os.environ.get('VERIF_SEED', '1') or '1')
     if '--replay' in a:
